@@ -874,6 +874,10 @@ def compile_rvalue(prog, fn, rv, dst_type=None):
         return lambda ex, fr: Closure(ty, [f(ex, fr) for f in fs])
     if k == 'adt':
         fs = [compile_operand(prog, fn, o) for o in rv[2]]
+        if not fs and dst_type and re.search(r'fn\(.*\{[^{}]+\}$', dst_type):
+            # `_1 = path::to::function;` — a zero-sized function item (type printed as `fn(..) -> R {path}`), not a unit struct
+            item = FnItem(rv[1])
+            return lambda ex, fr: item
         name, variant = prog.adt_ctor(rv[1], dst_type)
         return lambda ex, fr: Adt(name, variant, [f(ex, fr) for f in fs])
     if k == 'len':
